@@ -172,3 +172,103 @@ def _(query_context: Obj['rbql_engine.RBQLContext'], user_namespace: Opaque, LIK
            urec_fail(query_context.input_iterator.rows[query_context.input_iterator.pos - 1], query_context.input_iterator.pos, True), 'parsing_error_passes_through')
     loop_types(0, record_a=Opt[List[Cell]], NF=Int, out_fields=List[Cell], sort_key=Opt[Key], a1=Cell, a3=Cell, aNR=Int, a=Obj['rbql_engine.RBQLRecord'], key=Opaque, star_fields=List[Cell])
     modifies(query_context, query_context.input_iterator, region(query_context.writer))
+
+
+# ---------------------------------------------------------------- JOIN select loop (C04)
+@pred
+def jctx_inv(ctx):
+    return ((not is_none(ctx.sort_key_expression)) == ctx.writer.sorted_iface and not same(ctx.writer, ctx.input_iterator)
+            and not is_none(ctx.join_map))
+
+
+@contract('gen:select_join', name='C04.loop.select_join', props=['C04', 'C01', 'C14', 'C15', 'C06'])
+def _(query_context: Obj['rbql_engine.RBQLContext'], user_namespace: Opaque, LIKE: Opaque, UNNEST: Cls['rbql_engine.compile_and_run.UNNEST'],
+      ANY_VALUE: Opaque, MIN: Opaque, MAX: Opaque, COUNT: Opaque, SUM: Opaque, AVG: Opaque, VARIANCE: Opaque, MEDIAN: Opaque,
+      ARRAY_AGG: Opaque, mad_max: Opaque, mad_min: Opaque, mad_sum: Opaque, select_unnested: Fn['rbql_engine.compile_and_run.select_unnested']):
+    requires(jctx_inv(query_context), 'ctx')
+    requires(query_context.writer.sorted_iface, 'variant_order_by')
+    requires(query_context.aggregation_stage == 0, 'not_aggregate')
+    requires(query_context.input_iterator.pos == 0, 'iterator_fresh')
+    requires(not query_context.writer.finished and not query_context.writer.refused, 'writer_open')
+    invariant(0, same(query_context.input_iterator, old(query_context.input_iterator)) and same(query_context.writer, old(query_context.writer))
+              and same(query_context.join_map, old(query_context.join_map))
+              and jctx_inv(query_context) and query_context.aggregation_stage == 0
+              and query_context.input_iterator.rows == old(query_context.input_iterator.rows)
+              and query_context.join_map.kind == old(query_context.join_map.kind) and query_context.join_map.jmv == old(query_context.join_map.jmv)
+              and query_context.join_map.nullw == old(query_context.join_map.nullw), 'config')
+    invariant(0, NR == query_context.input_iterator.pos and 0 <= NR and NR <= len(query_context.input_iterator.rows), 'NR_is_position')
+    invariant(0, implies(not stop_flag, query_context.writer.offered == old(query_context.writer.offered)
+                         + jsel_out(query_context.input_iterator.rows, NR, query_context.join_map.kind, query_context.join_map.jmv, query_context.join_map.nullw)), 'offered')
+    invariant(0, stop_flag == query_context.writer.refused and not query_context.writer.finished, 'stop_flag')
+    invariant(0, forall(Int, lambda k: implies(1 <= k and k <= NR and (k < NR or not stop_flag), not jrec_fail(query_context.input_iterator.rows[k - 1], k, query_context.join_map.kind, query_context.join_map.jmv, query_context.join_map.nullw))), 'no_failure_so_far')
+    # inner loop over the pairings of the current record
+    loop_types(1, join_match=Tuple[Opt[Int], Int, Rec], bNR=Opt[Int], bNF=Int, record_b=List[Cell], out_fields=List[Cell], sort_key=Opt[Key],
+               a1=Cell, a3=Cell, b2=Cell, aNR=Int, a=Obj['rbql_engine.RBQLRecord'], b=Obj['rbql_engine.RBQLRecord'], key=Opaque, star_fields=List[Cell])
+    invariant(1, 0 <= __i and __i <= len(join_matches), 'idx')
+    invariant(1, same(query_context.input_iterator, old(query_context.input_iterator)) and same(query_context.writer, old(query_context.writer))
+              and same(query_context.join_map, old(query_context.join_map))
+              and jctx_inv(query_context) and query_context.aggregation_stage == 0
+              and query_context.input_iterator.rows == old(query_context.input_iterator.rows)
+              and query_context.input_iterator.pos == NR
+              and query_context.join_map.kind == old(query_context.join_map.kind) and query_context.join_map.jmv == old(query_context.join_map.jmv)
+              and query_context.join_map.nullw == old(query_context.join_map.nullw), 'config')
+    invariant(1, not is_owned_below(join_matches) and contents(join_matches) == at_loop_entry(contents(join_matches))
+              and match_list_ok(contents(join_matches), jpairs_of(query_context.input_iterator.rows[NR - 1], query_context.join_map.kind, query_context.join_map.jmv, query_context.join_map.nullw)), 'pairings')
+    invariant(1, not is_none(record_a) and contents(record_a) == query_context.input_iterator.rows[NR - 1] and is_src(record_a) and len(record_a) >= 1, 'current_record')
+    invariant(1, implies(not stop_flag, query_context.writer.offered == old(query_context.writer.offered)
+                         + jsel_out(query_context.input_iterator.rows, NR - 1, query_context.join_map.kind, query_context.join_map.jmv, query_context.join_map.nullw)
+                         + jrows(query_context.input_iterator.rows[NR - 1], NR, jpairs_of(query_context.input_iterator.rows[NR - 1], query_context.join_map.kind, query_context.join_map.jmv, query_context.join_map.nullw), __i)), 'offered')
+    invariant(1, not stop_flag and not query_context.writer.refused and not query_context.writer.finished, 'stop_flag')
+    invariant(1, forall(Int, lambda k: implies(1 <= k and k < NR, not jrec_fail(query_context.input_iterator.rows[k - 1], k, query_context.join_map.kind, query_context.join_map.jmv, query_context.join_map.nullw))), 'no_failure_in_earlier_records')
+    invariant(1, jfirst_fail(query_context.input_iterator.rows[NR - 1], NR, jpairs_of(query_context.input_iterator.rows[NR - 1], query_context.join_map.kind, query_context.join_map.jmv, query_context.join_map.nullw), 0)
+              == jfirst_fail(query_context.input_iterator.rows[NR - 1], NR, jpairs_of(query_context.input_iterator.rows[NR - 1], query_context.join_map.kind, query_context.join_map.jmv, query_context.join_map.nullw), __i), 'no_failure_in_earlier_pairings')
+    invariant(1, implies(query_context.join_map.kind == 2, len(query_context.join_map.jmv[k1(query_context.input_iterator.rows[NR - 1][0])]) == 1), 'strict_checked')
+    # C04: the output is the projection of the expanded (A record, B match) pairs, A order then B order
+    ensures(implies(not query_context.writer.refused, query_context.writer.offered == old(query_context.writer.offered)
+                    + jsel_out(query_context.input_iterator.rows, query_context.input_iterator.pos, query_context.join_map.kind, query_context.join_map.jmv, query_context.join_map.nullw)
+                    and query_context.input_iterator.pos == len(query_context.input_iterator.rows)), 'output_is_projection_of_paired_records')
+    ensures(not query_context.writer.finished, 'typestate')
+    raises('rbql_engine.RbqlRuntimeError',
+           jrec_fail(query_context.input_iterator.rows[query_context.input_iterator.pos - 1], query_context.input_iterator.pos, query_context.join_map.kind, query_context.join_map.jmv, query_context.join_map.nullw)
+           and forall(Int, lambda k: implies(1 <= k and k < query_context.input_iterator.pos, not jrec_fail(query_context.input_iterator.rows[k - 1], k, query_context.join_map.kind, query_context.join_map.jmv, query_context.join_map.nullw)))
+           and str_contains(exc_msg(), 'record ' + str_of_int(query_context.input_iterator.pos)), 'names_first_offending_record')
+    raises('rbql_engine.RbqlParsingError',
+           jrec_fail(query_context.input_iterator.rows[query_context.input_iterator.pos - 1], query_context.input_iterator.pos, query_context.join_map.kind, query_context.join_map.jmv, query_context.join_map.nullw), 'parsing_error_passes_through')
+    loop_types(0, record_a=Opt[List[Cell]], NF=Int, join_matches=List[Tuple[Opt[Int], Int, Rec]], join_match=Tuple[Opt[Int], Int, Rec], bNR=Opt[Int], bNF=Int, record_b=List[Cell],
+               out_fields=List[Cell], sort_key=Opt[Key], a1=Cell, a3=Cell, b2=Cell, aNR=Int, a=Obj['rbql_engine.RBQLRecord'], b=Obj['rbql_engine.RBQLRecord'], key=Opaque, star_fields=List[Cell])
+    modifies(query_context, query_context.input_iterator, region(query_context.writer), family('joiner'))
+
+
+# ---------------------------------------------------------------- UPDATE loop (C05)
+@pred
+def uctx_inv(ctx):
+    return (not ctx.writer.sorted_iface and not same(ctx.writer, ctx.input_iterator))
+
+
+@contract('gen:update_simple', name='C05.loop.update_simple', props=['C05', 'C14', 'C15', 'C06'], subst={'HAS_WHERE': True})
+def _(query_context: Obj['rbql_engine.RBQLContext'], user_namespace: Opaque, LIKE: Opaque, UNNEST: Cls['rbql_engine.compile_and_run.UNNEST'],
+      ANY_VALUE: Opaque, MIN: Opaque, MAX: Opaque, COUNT: Opaque, SUM: Opaque, AVG: Opaque, VARIANCE: Opaque, MEDIAN: Opaque,
+      ARRAY_AGG: Opaque, mad_max: Opaque, mad_min: Opaque, mad_sum: Opaque, select_unnested: Fn['rbql_engine.compile_and_run.select_unnested']):
+    requires(uctx_inv(query_context), 'ctx')
+    requires(query_context.input_iterator.pos == 0, 'iterator_fresh')
+    requires(not query_context.writer.finished and not query_context.writer.refused, 'writer_open')
+    invariant(0, same(query_context.input_iterator, old(query_context.input_iterator)) and same(query_context.writer, old(query_context.writer))
+              and uctx_inv(query_context) and query_context.input_iterator.rows == old(query_context.input_iterator.rows), 'config')
+    invariant(0, NR == query_context.input_iterator.pos and 0 <= NR and NR <= len(query_context.input_iterator.rows), 'NR_is_position')
+    invariant(0, NU == nu_upto(query_context.input_iterator.rows, NR, HAS_WHERE), 'NU_counts_updated_records')
+    invariant(0, query_context.writer.offered == old(query_context.writer.offered) + upd_out(query_context.input_iterator.rows, NR, HAS_WHERE), 'offered')
+    invariant(0, stop_flag == query_context.writer.refused and not query_context.writer.finished, 'stop_flag')
+    invariant(0, forall(Int, lambda k: implies(1 <= k and k <= NR, not upd_fail(query_context.input_iterator.rows[k - 1], k, nu_upto(query_context.input_iterator.rows, k - 1, HAS_WHERE), HAS_WHERE))), 'no_failure_so_far')
+    # C05: one output record per input record, in order; only assigned fields of matching rows change
+    ensures(query_context.writer.offered == old(query_context.writer.offered) + upd_out(query_context.input_iterator.rows, query_context.input_iterator.pos, HAS_WHERE), 'every_record_emitted_once')
+    ensures(query_context.writer.refused or query_context.input_iterator.pos == len(query_context.input_iterator.rows), 'all_input_consumed_unless_refused')
+    ensures(not query_context.writer.finished, 'typestate')
+    raises('rbql_engine.RbqlRuntimeError',
+           upd_fail(query_context.input_iterator.rows[query_context.input_iterator.pos - 1], query_context.input_iterator.pos, nu_upto(query_context.input_iterator.rows, query_context.input_iterator.pos - 1, HAS_WHERE), HAS_WHERE)
+           and forall(Int, lambda k: implies(1 <= k and k < query_context.input_iterator.pos, not upd_fail(query_context.input_iterator.rows[k - 1], k, nu_upto(query_context.input_iterator.rows, k - 1, HAS_WHERE), HAS_WHERE)))
+           and query_context.writer.offered == old(query_context.writer.offered) + upd_out(query_context.input_iterator.rows, query_context.input_iterator.pos - 1, HAS_WHERE)
+           and str_contains(exc_msg(), 'record ' + str_of_int(query_context.input_iterator.pos)), 'names_first_offending_record')
+    raises('rbql_engine.RbqlParsingError',
+           upd_fail(query_context.input_iterator.rows[query_context.input_iterator.pos - 1], query_context.input_iterator.pos, nu_upto(query_context.input_iterator.rows, query_context.input_iterator.pos - 1, HAS_WHERE), HAS_WHERE), 'parsing_error_passes_through')
+    loop_types(0, record_a=Opt[List[Cell]], NF=Int, up_fields=List[Cell], a1=Cell, a3=Cell, aNR=Int, a=Obj['rbql_engine.RBQLRecord'])
+    modifies(query_context, query_context.input_iterator, region(query_context.writer))
